@@ -103,6 +103,16 @@ CLAIMED = {
              'while the journal exists.',
         note='Trusted: refs/warc.py; kill = loss of Python-level buffers only (bytes given to raw write() survive), cross-checked '
              'against real kills on a sample each run; one fault per append; failure of the journal unlink itself is waived.'),
+    'C14': dict(
+        level='exploration', engine='table', design_ref='4/C14',
+        technique='deterministic simulation of the storage surface: seeded operation histories (add/check-out/check-in/update/'
+                  'release/remove/visits/queries with close+reopen steps interleaved) executed in lock-step against the real '
+                  'SQLiteURLTable (on-disk, WAL; half the runs behind URLTableHookWrapper) and a dict-based reference model',
+        text='Seeded search over histories of 1..40 operations with batches containing duplicates, arbitrary property values and odd '
+             'URL strings. Oracle after every step: return values agree with the model (check_out: one of the candidates / NotFound '
+             'iff none; add_many: exactly the new URLs) and the full get_all() state equals the model, also across close+reopen.',
+        note='Trusted: refs/table.py, SQLAlchemy/SQLite. Kill-and-reopen belongs to C03, not here. A properties object always names '
+             'parent and root URL (as all wpull callers do).'),
 }
 
 PENDING_REASON = 'check not built yet in this round (designed in DESIGN.md section 4); no claim is made'
